@@ -21,7 +21,13 @@ use lv_common::{no_panic, panic_sig};
 use lv_gen::chain::{build_header, build_set};
 use lv_gen::mutate::{ByteMut, apply_all, byte_mut_strategy};
 use lv_gen::square::{Square, SquareSpec, build_square, structured_square_strategy, user_ns};
+use celestia_proto::p2p::pb::{HeaderRequest, HeaderResponse, header_request::Data as ReqData};
+use celestia_types::eds::EdsId;
+use celestia_types::namespace_data::{NamespaceData, NamespaceDataId};
+use lumina_node::store::{InMemoryStore, Store};
+use lumina_node::verif::{header_ex as hx, shrex_codec as sx, shwap as sw};
 use prost::Message;
+use std::sync::Arc;
 use tendermint_proto::Protobuf;
 
 pub const HEIGHT: u64 = 7;
@@ -45,6 +51,22 @@ pub enum Target {
 }
 
 pub const TYPES_TARGETS: &[Target] = &[Target::Header, Target::Sample, Target::Row, Target::RowNamespaceData, Target::Befp, Target::Ids];
+pub const ALL_TARGETS: &[Target] = &[
+    Target::Header,
+    Target::Sample,
+    Target::Row,
+    Target::RowNamespaceData,
+    Target::Befp,
+    Target::Ids,
+    Target::HeaderExRequest,
+    Target::HeaderExResponse,
+    Target::ShrexRow,
+    Target::ShrexSample,
+    Target::ShrexEds,
+    Target::ShrexNamespaceData,
+    Target::EdsNotification,
+    Target::Multihasher,
+];
 
 #[derive(Clone, Debug, Serialize, Deserialize)]
 pub enum Structured {
@@ -93,6 +115,7 @@ pub struct Fixture {
     pub sq: Square,
     pub header: ExtendedHeader,
     pub namespaces: Vec<Namespace>,
+    pub store: Arc<InMemoryStore>,
 }
 
 pub fn fixture(square: &SquareSpec, hseed: u64) -> Fixture {
@@ -105,7 +128,9 @@ pub fn fixture(square: &SquareSpec, hseed: u64) -> Fixture {
     namespaces.push(Namespace::PAY_FOR_BLOB);
     namespaces.push(Namespace::TAIL_PADDING);
     namespaces.push(Namespace::PARITY_SHARE);
-    Fixture { sq, header, namespaces }
+    let store = Arc::new(InMemoryStore::new());
+    block_on(store.insert(header.clone())).expect("fixture header inserts");
+    Fixture { sq, header, namespaces, store }
 }
 
 fn structured_strategy() -> impl Strategy<Value = Structured> {
@@ -162,6 +187,33 @@ pub enum Prepared {
     Rnd(RowNamespaceDataId, Vec<u8>),
     Befp(Vec<u8>),
     Ids(Vec<u8>),
+    HexReq(Vec<u8>),
+    HexResp(HeaderRequest, Vec<u8>),
+    ShrexRow(RowId, Vec<u8>),
+    ShrexSample(SampleId, Vec<u8>),
+    ShrexEds(Vec<u8>),
+    ShrexNd(NamespaceDataId, Vec<u8>),
+    Notif(Vec<u8>),
+    Mh(u64, Vec<u8>),
+}
+
+fn block_on<F: std::future::Future>(f: F) -> F::Output {
+    thread_local! {
+        static RT: tokio::runtime::Runtime = tokio::runtime::Builder::new_current_thread().enable_all().build().unwrap();
+    }
+    RT.with(|rt| rt.block_on(f))
+}
+
+fn hex_request(r: &Round) -> HeaderRequest {
+    let amounts = [0u64, 1, 2, 64, 511, 512, 513, 1 << 20, u64::MAX];
+    let origins = [0u64, 1, HEIGHT, HEIGHT + 1, u64::MAX - 1, u64::MAX];
+    let amount = amounts[r.a as usize % amounts.len()];
+    match r.seed_sel % 4 {
+        0 => HeaderRequest { data: Some(ReqData::Origin(origins[r.b as usize % origins.len()])), amount },
+        1 => HeaderRequest { data: Some(ReqData::Hash(vec![r.b as u8; [0usize, 1, 31, 32, 33][r.a as usize % 5]])), amount },
+        2 => HeaderRequest { data: None, amount },
+        _ => HeaderRequest { data: Some(ReqData::Origin(HEIGHT)), amount: 1 },
+    }
 }
 
 pub fn prepare(fx: &Fixture, t: Target, r: &Round) -> Prepared {
@@ -287,12 +339,93 @@ pub fn prepare(fx: &Fixture, t: Target, r: &Round) -> Prepared {
             }
             Prepared::Ids(b.to_vec())
         }
-        _ => Prepared::Ids(vec![]),
+        Target::HeaderExRequest => {
+            let mut buf = Vec::new();
+            block_on(hx::codec_write_request(&mut futures::io::Cursor::new(&mut buf), hex_request(r))).unwrap();
+            Prepared::HexReq(buf)
+        }
+        Target::HeaderExResponse => {
+            let n = 1 + (r.a as usize % 3);
+            let statuses = [0i32, 1, 2, 3, 100, -1, i32::MAX];
+            let responses: Vec<HeaderResponse> = (0..n)
+                .map(|i| HeaderResponse {
+                    body: if (r.seed_sel >> i) & 1 == 0 { fx.header.clone().encode_vec() } else { vec![0x0a; r.b as usize % 40] },
+                    status_code: if r.seed_sel & 0x100 == 0 { 1 } else { statuses[(r.b as usize + i) % statuses.len()] },
+                })
+                .collect();
+            let mut buf = Vec::new();
+            block_on(hx::codec_write_response(&mut futures::io::Cursor::new(&mut buf), responses)).unwrap();
+            Prepared::HexResp(hex_request(r), buf)
+        }
+        Target::ShrexEds => Prepared::ShrexEds(sx::shrex_encode_eds(&fx.sq.eds)),
+        Target::EdsNotification => {
+            let n = celestia_proto::share::p2p::shrex::sub::RecentEdsNotification {
+                height: [0u64, 1, HEIGHT, u64::MAX][r.a as usize % 4],
+                data_hash: match r.seed_sel % 4 {
+                    0 => fx.header.dah.hash().as_bytes().to_vec(),
+                    1 => vec![],
+                    2 => vec![0; 32],
+                    _ => vec![7; r.b as usize % 70],
+                },
+            };
+            Prepared::Notif(n.encode_to_vec())
+        }
+    }
+}
+
+/// re-wrap a types-level seed as the corresponding node-level target
+pub fn prepare_node(fx: &Fixture, t: Target, r: &Round) -> Prepared {
+    match t {
+        Target::ShrexRow => match prepare(fx, Target::Row, r) {
+            Prepared::Row(id, b) => Prepared::ShrexRow(id, b),
+            p => p,
+        },
+        Target::ShrexSample => match prepare(fx, Target::Sample, r) {
+            Prepared::Sample(id, b) => Prepared::ShrexSample(id, b),
+            p => p,
+        },
+        Target::ShrexNamespaceData => {
+            let ns = fx.namespaces[pick(r.seed_sel, fx.namespaces.len())];
+            let id = NamespaceDataId::new(ns, HEIGHT).unwrap();
+            let rows: Vec<_> = fx.sq.eds.get_namespace_data(ns, &fx.sq.dah, HEIGHT).unwrap_or_default().into_iter().map(|(_, d)| d).collect();
+            let mut bytes = sx::shrex_encode_namespace_data(&NamespaceData::new(rows));
+            if !matches!(r.structured, Structured::None) {
+                // splice a structurally tweaked single row (length-delimited) in front
+                if let Prepared::Rnd(_, one) = prepare(fx, Target::RowNamespaceData, r) {
+                    let mut pre = Vec::new();
+                    lv_gen::mutate::put_varint(&mut pre, one.len() as u64);
+                    pre.extend_from_slice(&one);
+                    pre.extend_from_slice(&bytes);
+                    bytes = pre;
+                }
+            }
+            Prepared::ShrexNd(id, bytes)
+        }
+        Target::Multihasher => {
+            let (code, cid, container): (u64, Vec<u8>, Vec<u8>) = match r.seed_sel % 3 {
+                0 => match prepare(fx, Target::Sample, r) {
+                    Prepared::Sample(id, b) => (0x7811, cid::CidGeneric::<12>::from(id).to_bytes(), b),
+                    _ => unreachable!(),
+                },
+                1 => match prepare(fx, Target::Row, r) {
+                    Prepared::Row(id, b) => (0x7801, cid::CidGeneric::<10>::from(id).to_bytes(), b),
+                    _ => unreachable!(),
+                },
+                _ => match prepare(fx, Target::RowNamespaceData, r) {
+                    Prepared::Rnd(id, b) => (0x7821, cid::CidGeneric::<39>::from(id).to_bytes(), b),
+                    _ => unreachable!(),
+                },
+            };
+            let code = if r.b % 17 == 0 { [0u64, 0x12, 0x7801, 0x7811, 0x7821, u64::MAX][r.a as usize % 6] } else { code };
+            let block = celestia_proto::bitswap::Block { cid, container };
+            Prepared::Mh(code, block.encode_to_vec())
+        }
+        other => prepare(fx, other, r),
     }
 }
 
 /// Runs a types-level decoder on `bytes`. Returns whether protobuf decoding reached lumina logic.
-pub fn run_types_target(fx: &Fixture, p: &Prepared, bytes: &[u8]) -> bool {
+pub fn run_target(fx: &Fixture, p: &Prepared, bytes: &[u8]) -> bool {
     match p {
         Prepared::Header(_) => {
             let a = ExtendedHeader::decode(bytes);
@@ -331,7 +464,59 @@ pub fn run_types_target(fx: &Fixture, p: &Prepared, bytes: &[u8]) -> bool {
             }
             reached
         }
+        Prepared::HexReq(_) => {
+            let r = block_on(hx::codec_read_request(&mut futures::io::Cursor::new(bytes)));
+            if let Ok(req) = &r {
+                let _ = hx::header_request_is_valid(req);
+                let _ = block_on(hx::serve_request(fx.store.clone(), req.clone()));
+            }
+            r.is_ok()
+        }
+        Prepared::HexResp(req, _) => {
+            let r = block_on(hx::codec_read_response(&mut futures::io::Cursor::new(bytes)));
+            if let Ok(resps) = &r {
+                let _ = block_on(hx::decode_and_verify_responses(req, resps));
+            }
+            r.map(|v| !v.is_empty()).unwrap_or(false)
+        }
+        Prepared::ShrexRow(id, _) => {
+            let _ = sx::shrex_decode_and_verify_row(bytes, id, &fx.header);
+            RawRow::decode(bytes).is_ok()
+        }
+        Prepared::ShrexSample(id, _) => {
+            let _ = sx::shrex_decode_and_verify_sample(bytes, id, &fx.header);
+            RawSample::decode(bytes).is_ok()
+        }
+        Prepared::ShrexEds(_) => {
+            let _ = sx::shrex_decode_and_verify_eds(bytes, &fx.header);
+            !bytes.is_empty() && bytes.len() % 512 == 0
+        }
+        Prepared::ShrexNd(id, _) => {
+            let _ = sx::shrex_decode_and_verify_namespace_data(bytes, id, &fx.header);
+            !bytes.is_empty()
+        }
+        Prepared::Notif(_) => {
+            let _ = sx::eds_notification_deserialize_and_validate(bytes);
+            celestia_proto::share::p2p::shrex::sub::RecentEdsNotification::decode(bytes).is_ok()
+        }
+        Prepared::Mh(code, _) => {
+            let _ = sw::multihasher_hash(fx.store.clone(), *code, bytes);
+            if let Ok(b) = celestia_proto::bitswap::Block::decode(bytes) {
+                if let Ok(c) = cid::Cid::read_bytes(b.cid.as_slice()) {
+                    let _ = sw::get_block_container(&c, bytes);
+                    let _ = sw::convert_cid(&c);
+                }
+                true
+            } else {
+                false
+            }
+        }
         Prepared::Ids(_) => {
+            let _ = sx::shrex_decode_row_request(bytes);
+            let _ = sx::shrex_decode_sample_request(bytes);
+            let _ = sx::shrex_decode_eds_request(bytes);
+            let _ = sx::shrex_decode_namespace_data_request(bytes);
+            let _ = EdsId::decode(bytes);
             let _ = SampleId::decode(bytes);
             let _ = RowId::decode(bytes);
             let _ = RowNamespaceDataId::decode(bytes);
@@ -353,26 +538,32 @@ fn seed_bytes(p: &Prepared) -> &[u8] {
         Prepared::Sample(_, b) => b,
         Prepared::Row(_, b) => b,
         Prepared::Rnd(_, b) => b,
+        Prepared::HexReq(b) | Prepared::ShrexEds(b) | Prepared::Notif(b) => b,
+        Prepared::HexResp(_, b) => b,
+        Prepared::ShrexRow(_, b) => b,
+        Prepared::ShrexSample(_, b) => b,
+        Prepared::ShrexNd(_, b) => b,
+        Prepared::Mh(_, b) => b,
     }
 }
 
 pub fn run(ctx: &mut Ctx) {
     ctx.assume("seeds are honest encodings of generated squares/headers; a target 'returns' when it yields Ok or Err; panics are caught by catch_unwind (aborts/stack overflows would end the process: exit 2)");
     ctx.assume("harness build has debug-assertions and overflow-checks on (covers 'including in debug builds')");
-    let labels: Vec<String> = TYPES_TARGETS.iter().map(|t| format!("target-{t:?}")).collect();
+    let labels: Vec<String> = ALL_TARGETS.iter().map(|t| format!("target-{t:?}")).collect();
     ctx.essential(&labels.iter().map(|s| s.as_str()).collect::<Vec<_>>());
     ctx.essential(&["structured-ProofNodes", "structured-ProofRange", "structured-RowEmptyHalf", "structured-BefpShape"]);
     let cases = ctx.tier.pick(2500, 120000);
     ctx.proptest(
         "mutation-fuzz",
-        "per case: one generated square + signed header; 24 rounds each = (target, honest seed encoding chosen by selectors, optional structured adversarial tweak, 0..3 byte/protobuf-aware mutations) fed to the decoder and then to verification against the header/DAH; oracle: the call returns. Non-trivial = input differs from its honest seed AND passes raw protobuf decoding (reaches lumina logic); distinct by target+bytes",
+        "per case: one generated square + signed header; 42 rounds each = (target, honest seed encoding chosen by selectors, optional structured adversarial tweak, 0..3 byte/protobuf-aware mutations) fed to the decoder and then to verification against the header/DAH; oracle: the call returns. Non-trivial = input differs from its honest seed AND passes raw protobuf decoding (reaches lumina logic); distinct by target+bytes",
         cases,
-        || (structured_square_strategy(0, 2), any::<u64>(), prop::collection::vec(round_strategy(), 24..=24)).prop_map(|(square, hseed, rounds)| Case { square, hseed, rounds }),
+        || (structured_square_strategy(0, 2), any::<u64>(), prop::collection::vec(round_strategy(), 42..=42)).prop_map(|(square, hseed, rounds)| Case { square, hseed, rounds }),
         |case, obs| {
             let fx = fixture(&case.square, case.hseed);
             for r in &case.rounds {
-                let t = TYPES_TARGETS[r.target as usize % TYPES_TARGETS.len()];
-                let p = prepare(&fx, t, r);
+                let t = ALL_TARGETS[r.target as usize % ALL_TARGETS.len()];
+                let p = prepare_node(&fx, t, r);
                 let seed = seed_bytes(&p).to_vec();
                 let mut bytes = apply_all(&seed, &r.muts);
                 if matches!(r.structured, Structured::Empty) {
@@ -380,7 +571,7 @@ pub fn run(ctx: &mut Ctx) {
                 }
                 let honest = {
                     let clean = Round { structured: Structured::None, muts: vec![], ..r.clone() };
-                    seed_bytes(&prepare(&fx, t, &clean)).to_vec()
+                    seed_bytes(&prepare_node(&fx, t, &clean)).to_vec()
                 };
                 let differs = bytes != honest;
                 obs.label(&format!("target-{t:?}"));
@@ -388,7 +579,7 @@ pub fn run(ctx: &mut Ctx) {
                     let name = format!("{:?}", r.structured);
                     obs.label(&format!("structured-{}", name.split([' ', '{']).next().unwrap_or("")));
                 }
-                match no_panic(|| run_types_target(&fx, &p, &bytes)) {
+                match no_panic(|| run_target(&fx, &p, &bytes)) {
                     Ok(reached) => {
                         obs.eval((differs && reached).then(|| digest_bytes(&bytes) ^ (t as u64)));
                         if reached {
